@@ -89,6 +89,25 @@ Theorem C13_checked_child_ancestors : forall pred W, conforming pred W ->
 Proof. exact checked_child_ancestors. Qed.
 Print Assumptions C13_checked_child_ancestors.
 
+(** Inheritance chains of any length (plugin or not at each level): a chain passes
+    exactly when each class passes against its immediate base ... *)
+Theorem C13_chain_passes_iff_links : forall pred cs p,
+  check_chain pred p cs = true <->
+  (forall k, k < List.length cs ->
+     check_child pred (leaf_schema p (firstn k cs)) (nth k cs (mkchild 0 EAllow [] [] [])) = true).
+Proof. exact check_chain_links. Qed.
+Print Assumptions C13_chain_passes_iff_links.
+
+(** ... and then whatever the last class accepts (so, by [C13_dump_reparses], whatever it
+    serialises) is accepted by every class of the chain up to the root. *)
+Theorem C13_checked_chain : forall pred W, conforming pred W ->
+  forall cs p,
+  check_chain pred p cs = true -> chain_ok pred W p cs ->
+  forall j, accepts pred (obj_of (leaf_schema p cs)) j = true ->
+  forall s, In s (chain_schemas p cs) -> accepts pred (obj_of s) j = true.
+Proof. exact checked_chain_sound. Qed.
+Print Assumptions C13_checked_chain.
+
 (** The premises cannot be dropped, and the pinned class-level check is too weak. *)
 Theorem C13_unsafe_pair_refuted :
   exists pred a b j,
@@ -130,6 +149,22 @@ Proof. vm_compute. repeat split. Qed.
 
 Example C13_nonvacuous_world : conforming ex_pred (fun _ => False).
 Proof. intros c1 e1 f1 c2 e2 f2 H. destruct H. Qed.
+
+(** Root -> Middle (re-types x to a non-subtype) -> Leaf (does not touch x): refused,
+    and indeed the leaf accepts an object the root rejects. *)
+Example C13_nonvacuous_chain :
+  let root := mkschema [1%N] EAllow [("x", (false, TPrim true KInt))] [] in
+  let good := mkchild 2%N EAllow [("x", (false, TLit [LInt 1]))] [] [] in
+  let bad := mkchild 2%N EAllow [("x", (false, TPrim true KStr))] [] [] in
+  let leaf := mkchild 3%N EAllow [("z", (false, TOpt (TPrim true KInt)))] [] [] in
+  let j := JObj [("x", JStr "abc")] in
+  check_chain ex_pred root [bad; leaf] = false /\
+  check_child ex_pred (child_schema root bad) leaf = true /\
+  accepts ex_pred (obj_of (leaf_schema root [bad; leaf])) j = true /\
+  accepts ex_pred (obj_of root) j = false /\
+  check_chain ex_pred root [mkchild 2%N EAllow [] [] []; leaf] = true /\
+  List.length (chain_schemas root [bad; leaf]) = 3.
+Proof. vm_compute. repeat split. Qed.
 
 Example C13_nonvacuous_child :
   let p := mkschema [1%N] EAllow
